@@ -3,7 +3,7 @@ from .. import core
 from .. import gen_schema as gs
 from .. import gen_schemaval as gsv
 from ..ordered import same_ordered
-from ..wire import parse_ordered, from_tagged, canon, Obj
+from ..wire import parse_ordered, from_tagged, canon, Obj, Num
 
 ID = "C05"
 N_QUICK = 5000
@@ -15,14 +15,180 @@ RULE = ("(a) Schema values built by reflection over the real struct (the field t
         "real package directly: Marshal twice byte-equal; Unmarshal(Marshal(s)) marshals to the same JSON value (byte-identical when no "
         "PropertyOrder is set) and gives the same verdicts on 4 instances; and the marshaled bytes parse to the model's ordered value. "
         "Non-trivial: >= 3 populated fields or a union field; distinct = operation text")
+RULE += (". Widened: (c) ~8% of the documents get, at a random subschema and a random place in its key order, a KNOWN keyword whose value has the "
+         "wrong JSON type for the Go field (string for a list / number / boolean, number for a string, array for a map, …) together with 0..2 "
+         "unknown keywords before or after it: Unmarshal must refuse exactly as the model does; (d) ~4% get an unknown keyword that is a "
+         "letter-case variant of a string / boolean / number / string-list keyword absent from the object (class of D4): every key of an "
+         "accepted document that is not exactly a keyword must come back from Marshal with its value (Extra), at every subschema reached "
+         "through exact keywords — checked here against the statement, independent of the model; (e) ~6% of the Schema values have string "
+         "slices (PropertyOrder, Required, Types, DependentRequired / DependencyStrings values, of one node or of two nodes) that are windows "
+         "of ONE backing array (descriptor member `alias`), with properties PropertyOrder does not list: same bytes as without sharing, "
+         "and the Schema value is left as it was")
 TRUSTED = ["encoding/json's byte-level formatting of strings and numbers (outputs are compared after parsing, order kept)"]
 UNION = {"Type", "Types", "Items", "ItemsArray", "DependencySchemas", "DependencyStrings", "Const", "Properties", "Extra", "Default"}
+
+
+_KW = {}
+
+
+def keyword_table():
+    """JSON keyword -> Go type of the Schema field (from the real field table), plus the shadowed union keywords."""
+    if not _KW:
+        for f in gsv.fetch_fields(core):
+            t = f["tag"].split(",")[0]
+            if t and t != "-":
+                _KW[t] = f["type"]
+        _KW.update({"type": "union:type", "items": "union:items", "dependencies": "union:dependencies",
+                    "properties": "map[string]*jsonschema.Schema"})
+    return _KW
+
+
+def ill_typed_value(rng, gotype):
+    """A JSON value whose JSON type the field cannot take (never null, which encoding/json skips)."""
+    s, n, b = rng.choice(["name", "3", "", "true"]), Num(rng.choice(["3", "0", "1.5"])), rng.random() < 0.5
+    arr, obj = [Num("1")], Obj([("a", Num("1"))])
+    table = {
+        "string": [n, b, arr, obj, []],
+        "bool": [s, n, arr, obj],
+        "*float64": [s, b, arr, obj],
+        "*int": [s, b, arr, obj],
+        "[]string": [s, n, obj, arr, [s, n], b],
+        "[]interface {}": [s, n, obj, b],
+        "map[string]bool": [arr, s, n, Obj([("https://v/1", Num("1"))]), Obj([("https://v/1", "true")]), []],
+        "map[string][]string": [arr, s, Obj([("a", "b")]), Obj([("a", [Num("1")])]), b],
+        "map[string]*jsonschema.Schema": [arr, s, n, [], Obj([("a", Num("1"))]), Obj([("a", "x")]), Obj([("a", [])])],
+        "*jsonschema.Schema": [n, s, arr],
+        "[]*jsonschema.Schema": [obj, s, n, arr, [s]],
+        "union:type": [n, b, obj, [Num("1")], ["string", Num("1")]],
+        "union:items": [n, s, [Num("1")]],
+        "union:dependencies": [arr, s, n, Obj([("a", Num("1"))]), Obj([("a", "x")]), Obj([("a", [Num("1")])])],
+    }
+    c = table.get(gotype)
+    return rng.choice(c) if c else None
+
+
+UNKNOWN = ["x-internal", "x-foo", "foo", "$foo", "nullable", "discriminator", "example", "id", "divisibleBy", "minimun", "unk", "zz-last", "0first"]
+
+
+def spoil(rng, doc):
+    """One known keyword with a value of the wrong JSON type, and unknown keywords around it, at a random place of a random subschema."""
+    from .c18 import positions, deep_copy
+    d = deep_copy(doc)
+    pos = []
+    positions(d, pos)
+    if not pos:
+        return None
+    o = rng.choice(pos)
+    kw = keyword_table()
+    k = rng.choice(sorted(kw))
+    if k in o.keys() or k in ("$schema",):
+        return None
+    v = ill_typed_value(rng, kw[k])
+    if v is None:
+        return None
+    o.kvs.insert(rng.randint(0, len(o.kvs)), (k, v))
+    for _ in range(rng.choice([0, 1, 1, 1, 2])):
+        u = rng.choice(UNKNOWN)
+        if u not in o.keys():
+            o.kvs.insert(rng.randint(0, len(o.kvs)), (u, gs.gen_value(rng, 1)))
+    return d
+
+
+FOLDABLE = {"string": lambda rng: rng.choice(["T", "", "email"]), "bool": lambda rng: rng.random() < 0.5,
+            "*float64": lambda rng: Num(rng.choice(["5", "0", "-1", "2.5"])), "*int": lambda rng: Num(str(rng.randint(0, 3))),
+            "[]string": lambda rng: rng.sample(gs.NAMES, rng.randint(0, 2))}
+
+
+def case_variant(rng, doc):
+    """An unknown keyword that differs from a string / boolean / number / string-list keyword (absent from that object) only in letter
+    case, with a value that keyword could take: the class of D4. It is not a keyword, so it belongs to Extra and must be marshaled back."""
+    from .c18 import positions, deep_copy
+    d = deep_copy(doc)
+    pos = []
+    positions(d, pos)
+    if not pos:
+        return None
+    o = rng.choice(pos)
+    kw = keyword_table()
+    k = rng.choice(sorted(x for x in kw if kw[x] in FOLDABLE and x.lstrip("$").isalpha() and x not in ("$schema", "$id", "$ref", "$dynamicRef", "$anchor", "$dynamicAnchor", "pattern")))
+    var = rng.choice([k.capitalize(), k.upper(), k[0] + k[1:].swapcase(), k[:1].upper() + k[1:], k.title()])
+    if var == k or any(x.lower() == k.lower() for x in o.keys()):
+        return None
+    o.kvs.insert(rng.randint(0, len(o.kvs)), (var, FOLDABLE[kw[k]](rng)))
+    return d
+
+
+def alias_windows(rng, fields):
+    """A Schema value whose []string fields are windows of one backing array (names[:1], names[:3], names[2:4] …), over a node with
+    properties that PropertyOrder does not list — and the same for a child, a sibling pair, Types."""
+    names = rng.sample(gs.NAMES + ["e", "zz", "id", "name", "email", "bio", "age"], rng.randint(2, 7))
+    nodes = [{}]
+
+    def leaf():
+        nodes.append(rng.choice([{}, {"Type": rng.choice(gs.TYPES)}, {"Type": "string", "MinLength": Num("1")}]))
+        return len(nodes) - 1
+
+    def window():
+        off = rng.choice([0, 0, 0, rng.randint(0, len(names) - 1)])
+        ln = rng.randint(0 if rng.random() < 0.1 else 1, len(names) - off)
+        return off, ln
+
+    def obj_node(i):
+        nd = nodes[i]
+        props = rng.sample(names, rng.randint(1, len(names))) + (["other"] if rng.random() < 0.3 else [])
+        nd["Properties"] = [[k, leaf()] for k in props]
+        slots = []
+        po = (0, rng.randint(0, max(0, len(names) - 2))) if rng.random() < 0.7 else window()
+        nd["PropertyOrder"] = names[po[0]:po[0] + po[1]]
+        slots.append({"node": i, "field": "PropertyOrder", "off": po[0], "len": po[1]})
+        for _ in range(rng.randint(1, 2)):
+            f = rng.choice(["Required", "Required", "DependentRequired", "DependencyStrings"])
+            off, ln = window()
+            if f == "Required":
+                if "Required" in nd:
+                    continue
+                nd[f] = names[off:off + ln]
+                slots.append({"node": i, "field": f, "off": off, "len": ln})
+            else:
+                if f in nd:
+                    continue
+                key = rng.choice(names)
+                nd[f] = [[key, names[off:off + ln]]]
+                slots.append({"node": i, "field": f, "key": key, "off": off, "len": ln})
+        return slots
+
+    slots = obj_node(0)
+    r = rng.random()
+    if r < 0.35:
+        # a child (or two siblings) sharing the array of the parent
+        for _ in range(rng.randint(1, 2)):
+            nodes.append({})
+            c = len(nodes) - 1
+            nodes[0]["Properties"].append(["child%d" % c, c])
+            slots += obj_node(c)
+    groups = [{"backing": names, "slots": slots}]
+    if rng.random() < 0.25:
+        tys = rng.sample(gs.TYPES, rng.randint(2, 4))
+        nodes.append({"Types": tys[:rng.randint(1, len(tys) - 1)]})
+        nodes.append({"Types": tys})
+        nodes[0].setdefault("AnyOf", []).extend([len(nodes) - 2, len(nodes) - 1])
+        groups.append({"backing": tys, "slots": [{"node": len(nodes) - 2, "field": "Types", "off": 0, "len": len(nodes[-2]["Types"])},
+                                                  {"node": len(nodes) - 1, "field": "Types", "off": 0, "len": len(tys)}]})
+    desc = {"nodes": nodes, "root": 0, "alias": groups}
+    facts = {"empty_enum": False, "big_int": False, "nil_child": False, "order": True, "extra_fold": False, "extra_collide": False,
+             "nil_depstrings": False, "rules_broken": False, "n": len(nodes), "alias": True}
+    return desc, facts
 
 
 def gen(rng, tier, n):
     fields = gsv.fetch_fields(core)
     ops = []
     while len(ops) < n:
+        if rng.random() < 0.06:
+            desc, facts = alias_windows(rng, fields)
+            insts = [Obj([(k, rng.choice([Num("1"), "s", None])) for k in rng.sample(desc["alias"][0]["backing"], rng.randint(0, min(3, len(desc["alias"][0]["backing"]))))]) for _ in range(4)]
+            ops.append({"op": "marshal", "args": {"desc": desc, "insts": insts}, "meta": {"facts": facts, "nt": True}})
+            continue
         if rng.random() < 0.6:
             desc, facts = gsv.gen_desc(rng, fields, depth=2 if tier == "quick" else 3)
             insts = [gs.gen_instance(rng, 2) for _ in range(4)]
@@ -33,6 +199,9 @@ def gen(rng, tier, n):
             c = gs.Ctx(rng, draft, depth=rng.choice([1, 2, 3]), meta=0.3, refs=False)
             c.wild_ints = True
             doc = gs.gen_document(c, rng.choice(gs.D7_URIS) if draft == "7" else None)
+            r = rng.random()
+            if r < 0.13:
+                doc = (spoil if r < 0.09 else case_variant)(rng, doc) or doc
             insts = [gs.gen_instance(rng, 2) for _ in range(4)]
             ops.append({"op": "roundtrip-doc", "args": {"doc": doc, "insts": insts},
                         "meta": {"facts": {"order": False, "empty_enum": gs.has_key(doc, ()) and False}, "nt": gs.count_keywords(doc) >= 3, "doc": True}})
@@ -53,6 +222,41 @@ def doc_has_empty(doc):
     elif isinstance(doc, list):
         return any(doc_has_empty(x) for x in doc)
     return False
+
+
+def lost_unknown(doc, out, path="$"):
+    """The statement, directly: a key of an accepted document that is not EXACTLY a keyword is kept (Schema.Extra) and marshaled back with
+    its value — at the root and at every subschema reached through exact keywords. Returns a description of the first loss, or None."""
+    from .c18 import ONE, MANY, MAP
+    if not isinstance(doc, Obj):
+        return None
+    kw = keyword_table()
+    for k, v in doc.kvs:
+        if k in kw:
+            continue
+        w = out.get(k, KeyError) if isinstance(out, Obj) else KeyError
+        if w is KeyError:
+            return "%s: the unknown keyword %r is gone from the marshaled schema" % (path, k)
+        if canon(w) != canon(v):
+            return "%s: the unknown keyword %r came back with another value" % (path, k)
+    if not isinstance(out, Obj):
+        return None
+    for k, v in doc.kvs:
+        if k not in kw or sum(1 for x in doc.keys() if x.lower() == k.lower()) != 1:
+            continue
+        w = out.get(k)
+        pairs = []
+        if k in ONE or (k == "items" and not isinstance(v, list)):
+            pairs = [(k, v, w)]
+        elif (k in MANY or k == "items") and isinstance(v, list) and isinstance(w, list) and len(v) == len(w):
+            pairs = [("%s/%d" % (k, i), x, y) for i, (x, y) in enumerate(zip(v, w))]
+        elif (k in MAP or k == "dependencies") and isinstance(v, Obj) and isinstance(w, Obj):
+            pairs = [("%s/%s" % (k, kk), x, w.get(kk)) for kk, x in v.kvs if not isinstance(x, list)]
+        for (step, x, y) in pairs:
+            e = lost_unknown(x, y, path + "/" + step)
+            if e:
+                return e
+    return None
 
 
 def judge(o, go, m):
@@ -81,6 +285,12 @@ def judge(o, go, m):
     except Exception as e:
         return "violation", "Marshal produced unparsable bytes: %r" % (e,)
     mval = from_tagged(mo["value"])
+    if o["op"] == "roundtrip-doc":
+        e = lost_unknown(o["args"]["doc"], gval)
+        if e:
+            return "violation", "%s: %s" % (e, go["text"][:300])
+    if go.get("untouched") is False:
+        return "violation", "Marshal (or the Resolve / Validate calls of the round trip) modified the Schema value it was given: %s" % go["text"][:300]
     if not same_ordered(gval, mval):
         return known or "violation", "marshaled value differs: real package %s, model %r" % (go["text"][:300], mval)
     if not go.get("stable"):
